@@ -437,7 +437,7 @@ def check(tier: str, replay: Optional[str] = None) -> int:
     cfgs: List[Dict[str, Any]] = []
     if not (case and case.get("machine") == "Compare"):
         for (name, types, names, cpkeys, rev) in hl.templates(tier):
-            if tier == "quick" and name not in ("chain", "two_names", "comparams", "comparams_shared"):
+            if tier == "quick" and name not in ("chain", "two_names", "comparams", "comparams_shared", "comparams_two_subsets"):
                 continue
             if tier == "thorough" and name in ("two_groups", "shared_chain", "two_names_rev", "comparams_rev", "two_protocols_shared"):
                 continue
